@@ -64,8 +64,24 @@ pub struct ArrayMetadataV2 {
     /// Additional fields.
     ///
     /// These are not part of Zarr V2, but are retained for compatibility/flexibility.
-    #[serde(flatten)]
+    #[serde(flatten, deserialize_with = "deserialize_v2_additional_fields")]
     pub additional_fields: AdditionalFields,
+}
+
+/// The `"node_type": "array"` tag written by `Serialize` is not an additional field when it is read back
+/// (an array stored by `zarrs` could not be opened again: `node_type` was an unsupported additional field).
+fn deserialize_v2_additional_fields<'de, D>(deserializer: D) -> Result<AdditionalFields, D::Error>
+where
+    D: serde::Deserializer<'de>,
+{
+    let mut additional_fields = AdditionalFields::deserialize(deserializer)?;
+    if additional_fields
+        .get("node_type")
+        .is_some_and(|field| field.as_value() == "array")
+    {
+        additional_fields.remove("node_type");
+    }
+    Ok(additional_fields)
 }
 
 #[allow(clippy::ref_option)]
